@@ -9,10 +9,13 @@ from collections import namedtuple
 
 from ural.ensure_protocol import ensure_protocol
 from ural.get_hostname import get_hostname
+from ural.patterns import ASCII
 from ural.utils import pathsplit, urlsplit, urlunsplit, safe_urlsplit
 
 TELEGRAM_MESSAGE_ID_RE = re.compile(r"^\d+$")
-TELEGRAM_DOMAINS_RE = re.compile(r"(?:^|\.)(?:telegram\.(?:org|me)|t\.me)$", re.I)
+TELEGRAM_DOMAINS_RE = re.compile(
+    r"(?:^|\.)(?:telegram\.(?:org|me)|t\.me)$", re.I | ASCII
+)
 TELEGRAM_PUBLIC_REPLACE_RE = re.compile(
     r"^(?:[^.]+\.)?(?:telegram\.(?:org|me)|t\.me)", re.I
 )
